@@ -97,6 +97,87 @@ pub open spec fn number_value_ok(t: Token, w: Seq<char>) -> bool {
     }
 }
 
+// ---- tokens: whitespace, spans, the operator table -------------------------------------------------------------------------------
+pub open spec fn is_ws(c: char) -> bool { c == ' ' || c == '\t' || c == '\n' }
+/// the number of leading whitespace characters
+pub open spec fn ws_run(s: Seq<char>) -> nat decreases s.len() { if s.len() > 0 && is_ws(s[0]) { 1 + ws_run(s.skip(1)) } else { 0 } }
+/// line / column after a sequence of characters
+pub open spec fn adv_n(l: (nat, nat), s: Seq<char>) -> (nat, nat) decreases s.len() { if s.len() == 0 { l } else { advance(adv_n(l, s.drop_last()), s.last()) } }
+pub proof fn lemma_ws_run(s: Seq<char>, k: nat)
+    requires k <= s.len(), forall|i: int| 0 <= i < k ==> is_ws(#[trigger] s[i]), k == s.len() || !is_ws(s[k as int])
+    ensures ws_run(s) == k
+    decreases k
+{
+    if k > 0 {
+        assert forall|i: int| 0 <= i < k - 1 implies is_ws(#[trigger] s.skip(1)[i]) by { assert(s.skip(1)[i] == s[i + 1]); }
+        lemma_ws_run(s.skip(1), (k - 1) as nat);
+    }
+}
+pub proof fn lemma_adv_take(l: (nat, nat), s: Seq<char>, k: int)
+    requires 0 <= k < s.len() ensures adv_n(l, s.take(k + 1)) == advance(adv_n(l, s.take(k)), s[k])
+{ assert(s.take(k + 1).drop_last() =~= s.take(k)); }
+/// the punctuation and operator tokens: first character, look-ahead -> (token, characters consumed)
+pub open spec fn op_token(c0: char, c1: Option<char>) -> Option<(Token, nat)> {
+    if c0 == '?' { Some((Token::Question, 1nat)) } else if c0 == ':' { Some((Token::Colon, 1nat)) } else if c0 == '+' { Some((Token::Add, 1nat)) }
+    else if c0 == '-' { Some((Token::Minus, 1nat)) } else if c0 == '*' { Some((Token::Multiply, 1nat)) } else if c0 == '/' { Some((Token::Divide, 1nat)) }
+    else if c0 == '%' { Some((Token::Mod, 1nat)) } else if c0 == ',' { Some((Token::Comma, 1nat)) }
+    else if c0 == '[' { Some((Token::LBracket, 1nat)) } else if c0 == ']' { Some((Token::RBracket, 1nat)) }
+    else if c0 == '{' { Some((Token::LBrace, 1nat)) } else if c0 == '}' { Some((Token::RBrace, 1nat)) }
+    else if c0 == '(' { Some((Token::LParen, 1nat)) } else if c0 == ')' { Some((Token::RParen, 1nat)) }
+    else if c0 == '!' { if c1 == Some('=') { Some((Token::NotEqual, 2nat)) } else { Some((Token::Not, 1nat)) } }
+    else if c0 == '<' { if c1 == Some('=') { Some((Token::LessEqual, 2nat)) } else { Some((Token::LessThan, 1nat)) } }
+    else if c0 == '>' { if c1 == Some('=') { Some((Token::GreaterEqual, 2nat)) } else { Some((Token::GreaterThan, 1nat)) } }
+    else if c0 == '=' { if c1 == Some('=') { Some((Token::EqualEqual, 2nat)) } else { None } }
+    else if c0 == '|' { if c1 == Some('|') { Some((Token::OrOr, 2nat)) } else { None } }
+    else if c0 == '&' { if c1 == Some('&') { Some((Token::AndAnd, 2nat)) } else { None } }
+    else if c0 == '.' { if c1 is Some && '0' <= c1->Some_0 && c1->Some_0 <= '9' { None } else { Some((Token::Dot, 1nat)) } }
+    else { None }
+}
+pub closed spec fn r_end(r: SourceRange) -> SourceLocation { r.end }
+pub closed spec fn r_start(r: SourceRange) -> SourceLocation { r.start }
+pub closed spec fn mk_range(a: SourceLocation, b: SourceLocation) -> SourceRange { SourceRange { start: a, end: b } }
+pub open spec fn sl(s: SourceLocation) -> (nat, nat) { (sl_line(s), sl_col(s)) }
+impl Clone for SourceLocation { #[verifier::external_body] fn clone(&self) -> (r: Self) ensures r == *self { unimplemented!() } }
+impl Copy for SourceLocation {}
+/// `res.map(|o| o.map(|t| TokenWithLoc::new(t, SourceRange::new(token_start, end))))`
+#[verifier::external_body] pub fn s_with_span(res: Result<Option<Token>, SyntaxError>, start: SourceLocation, end: SourceLocation) -> (r: Result<Option<TokenWithLoc>, SyntaxError>)
+    ensures (match res {
+        Ok(Some(t)) => r == Ok::<Option<TokenWithLoc>, SyntaxError>(Some(TokenWithLoc { token: t, loc: mk_range(start, end) })),
+        Ok(None) => r == Ok::<Option<TokenWithLoc>, SyntaxError>(None),
+        Err(e) => r == Err::<Option<TokenWithLoc>, SyntaxError>(e),
+    }) { unimplemented!() }
+#[verifier::external_body] pub fn s_encode_utf8<'a>(c: char, buf: &'a mut [u8; 4]) -> (r: &'a str) ensures r@ == seq![c] { unimplemented!() }
+#[verifier::external_body] pub fn s_char_to_string(c: char) -> (r: String) ensures r@ == seq![c] { unimplemented!() }
+
+// ---- identifiers and keywords ----------------------------------------------------------------------------------------------------
+pub open spec fn is_ident_char(c: char) -> bool { ('a' <= c && c <= 'z') || ('A' <= c && c <= 'Z') || ('0' <= c && c <= '9') || c == '_' }
+pub open spec fn ident_run(s: Seq<char>) -> nat decreases s.len() { if s.len() > 0 && is_ident_char(s[0]) { 1 + ident_run(s.skip(1)) } else { 0 } }
+pub proof fn lemma_ident_run(s: Seq<char>, k: nat)
+    requires k <= s.len(), forall|i: int| 0 <= i < k ==> is_ident_char(#[trigger] s[i]), k == s.len() || !is_ident_char(s[k as int])
+    ensures ident_run(s) == k
+    decreases k
+{
+    if k > 0 {
+        assert forall|i: int| 0 <= i < k - 1 implies is_ident_char(#[trigger] s.skip(1)[i]) by { assert(s.skip(1)[i] == s[i + 1]); }
+        lemma_ident_run(s.skip(1), (k - 1) as nat);
+    }
+}
+/// the first entry of a keyword table whose spelling is the word
+pub open spec fn kw_lookup(options: Seq<(&str, Token)>, word: Seq<char>) -> Option<Token> decreases options.len() {
+    if options.len() == 0 { None } else if options[0].0@ == word { Some(options[0].1) } else { kw_lookup(options.skip(1), word) }
+}
+#[verifier::external_body] pub fn s_find_keyword<'a>(options: &'a [(&str, Token)], word: &String) -> (r: Option<&'a (&'a str, Token)>)
+    ensures (match kw_lookup(options@, word@) { Some(t) => r is Some && r->Some_0.1 == t, None => r is None }) { unimplemented!() }
+impl Clone for Token { #[verifier::external_body] fn clone(&self) -> (r: Self) ensures r == *self { unimplemented!() } }
+
+/// the reserved words (the statement of C02 / C13: booleans and null are literals; in, match, case are operators / keywords)
+pub open spec fn keyword_of(word: Seq<char>) -> Option<Token> {
+    if word == "true"@ { Some(Token::BoolLit(true)) } else if word == "false"@ { Some(Token::BoolLit(false)) } else if word == "null"@ { Some(Token::Null) }
+    else if word == "in"@ { Some(Token::In) } else if word == "match"@ { Some(Token::Match) } else if word == "case"@ { Some(Token::Case) } else { None }
+}
+pub open spec fn is_ident_start(c: char) -> bool { c == '_' || ('A' <= c && c <= 'Z') || ('a' <= c && c <= 'z') }
+pub open spec fn is_quote(c: Option<char>) -> bool { c == Some('\'') || c == Some('"') }
+
 pub proof fn lemma_hex_val_push(s: Seq<char>, c: char) ensures hex_val(s.push(c)) == hex_val(s) * 16 + hex_digit(c) { assert(s.push(c).drop_last() =~= s); }
 pub open spec fn p16(n: nat) -> nat decreases n { if n == 0 { 1 } else { 16 * p16((n - 1) as nat) } }
 pub proof fn lemma_hex_val_bound(s: Seq<char>) requires all_hex(s) ensures hex_val(s) < p16(s.len()) decreases s.len()
@@ -153,7 +234,8 @@ def string_literal():
         body_begin='let ghost rem0 = self.scanner.remaining();',
         loops={0: dict(invariant=[('scanner_well_formed', 'self.scanner.wf() && self.scanner.remaining().len() <= rem0.len() && rem0.len() < 0x7fff_0000')],
                        ensures=[('scanner_well_formed', 'self.scanner.wf()')],
-                       pre='let ghost w0 = working@; let ghost mut rem1 = self.scanner.remaining();'),
+                       pre='let ghost w0 = working@; let ghost mut rem1 = self.scanner.remaining(); let ghost rem_in = self.scanner.remaining();',
+                       post='proof { assert(curr != starting && !(curr == \'\\\\\' && !is_raw) && !(is_format && (curr == \'{\' || curr == \'}\')) ==> working@ == w0.push(curr) && self.scanner.remaining() == rem_in.skip(1)); }'),
                1: dict(ghost='it', invariant=[('scanner_well_formed', 'self.scanner.wf()'),
                                   ('octal_digits_so_far', 'rem1.len() >= it.index@ && oct@ =~= seq![escaped] + rem1.take(it.index@ as int) && self.scanner.remaining() == rem1.skip(it.index@ as int) && working@ == w0')],
                        post='proof { assert(rem1.take(it.index@ as int + 1) =~= rem1.take(it.index@ as int).push(rem1[it.index@ as int])); }'),
@@ -168,6 +250,139 @@ def string_literal():
         rewrites=[('[escaped].into_iter().collect()', 's_string_of_char(escaped)', 'R2m: a one-character String built through an iterator'),
                   ('u32::from_str_radix(&oct, 8)', 's_u32_from_str_radix(&oct, 8)', 'R2m: std from_str_radix -> trampoline with the assumed std behaviour')],
         props=('C13', 'C18', 'C01'))
+
+
+def bytes_literal():
+    arm_end = {}
+    for ch, code in ESCAPES:
+        arm_end[f"'{ch}'"] = (f'escape_{ch}_is_byte_0x{code:02X}', f'working@ == w0.push({code}u8) && self.scanner.remaining() == rem1')
+    for pat, name in SELF_ESCAPES:
+        lit = "'" + pat + "'"
+        arm_end[lit] = (f'escape_{name}_is_its_ascii_byte', f'working@ == w0.push({lit} as u8) && self.scanner.remaining() == rem1')
+    for ch in ('x', 'X'):
+        arm_end[f"'{ch}'"] = (f'escape_{ch}_is_the_byte_of_2_hex_digits',
+                              'rem1.len() >= 2 && all_hex(rem1.take(2)) && working@ == w0.push(hex_val(rem1.take(2)) as u8) && self.scanner.remaining() == rem1.skip(2)')
+    arm_end["'0'..='9'"] = ('octal_escape_is_the_byte_of_three_octal_digits',
+                            'rem1.len() >= 2 && all_oct(seq![escaped] + rem1.take(2)) && oct_val(seq![escaped] + rem1.take(2)) <= 255 && working@ == w0.push(oct_val(seq![escaped] + rem1.take(2)) as u8) && self.scanner.remaining() == rem1.skip(2)')
+    arm_end['other'] = ('any_other_escaped_character_is_its_utf8_encoding', 'working@ == w0 + utf8_of(escaped) && self.scanner.remaining() == rem1')
+    return A(
+        ret='r', attrs=['#[verifier::exec_allows_no_decreases_clause]'], requires=[WF],
+        ensures=[WF_OUT, ERR_LOC],
+        loops={0: dict(invariant=[('scanner_well_formed', 'self.scanner.wf()')],
+                       ensures=[('scanner_well_formed', 'self.scanner.wf()')],
+                       pre='let ghost w0 = working@; let ghost mut rem1 = self.scanner.remaining(); let ghost rem_in = self.scanner.remaining();',
+                       post='proof { assert(curr != starting && curr != \'\\\\\' ==> working@ == w0 + utf8_of(curr) && self.scanner.remaining() == rem_in.skip(1)); }'),
+               1: dict(ghost='it', invariant=[('scanner_well_formed', 'self.scanner.wf()'),
+                                  ('octal_digits_so_far', 'rem1.len() >= it.index@ && oct@ =~= seq![escaped] + rem1.take(it.index@ as int) && self.scanner.remaining() == rem1.skip(it.index@ as int) && working@ == w0')],
+                       post='proof { assert(rem1.take(it.index@ as int + 1) =~= rem1.take(it.index@ as int).push(rem1[it.index@ as int])); }')},
+        after={('stmt', 'let escaped =', 0): 'proof { rem1 = self.scanner.remaining(); }'},
+        arm_end=arm_end,
+        before={'working.push(val)': 'proof { assert(oct@ =~= seq![escaped] + rem1.take(2)); }'},
+        rewrites=[('[escaped].into_iter().collect()', 's_string_of_char(escaped)', 'R2m: a one-character String built through an iterator'),
+                  ('u8::from_str_radix(&oct, 8)', 's_u8_from_str_radix(&oct, 8)', 'R2m: std from_str_radix -> trampoline with the assumed std behaviour'),
+                  ('other.encode_utf8(&mut buf); working.extend_from_slice(&buf[..other.len_utf8()]);', 's_push_utf8(&mut working, other);', 'R2m: encode_utf8 + extend_from_slice -> trampoline (assumed: appends the UTF-8 encoding)'),
+                  ('curr.encode_utf8(&mut buf); working.extend_from_slice(&buf[..curr.len_utf8()]);', 's_push_utf8(&mut working, curr);', 'R2m: encode_utf8 + extend_from_slice -> trampoline (assumed: appends the UTF-8 encoding)')],
+        props=('C13', 'C18', 'C01'))
+
+
+def collect_contract():
+    K = 'k'
+    return A(
+        ret='r', attrs=['#[verifier::exec_allows_no_decreases_clause]'], requires=[WF, SHORT],
+        ensures=[WF_OUT, ERR_LOC,
+                 ('a_token_spans_from_after_the_whitespace_to_the_scanner_position', """r is Ok && r->Ok_0 is Some ==> ({
+                    let t = r->Ok_0->Some_0;
+                    let rem0 = old(self).scanner.remaining();
+                    let ws = ws_run(rem0);
+                    &&& ws < rem0.len()
+                    &&& sl(r_start(t.loc)) == adv_n(old(self).scanner.loc(), rem0.take(ws as int))
+                    &&& sl(r_end(t.loc)) == final(self).scanner.loc()
+                 })""", ('C18',)),
+                 ('operators_and_punctuation', """r is Ok && r->Ok_0 is Some ==> ({
+                    let t = r->Ok_0->Some_0;
+                    let rem0 = old(self).scanner.remaining();
+                    let ws = ws_run(rem0) as int;
+                    let c1 = if ws + 1 < rem0.len() { Some(rem0[ws + 1]) } else { None::<char> };
+                    let op = op_token(rem0[ws], c1);
+                    op is Some ==> t.token == op->Some_0.0 && final(self).scanner.remaining() == rem0.skip(ws + op->Some_0.1)
+                        && final(self).scanner.loc() == adv_n(old(self).scanner.loc(), rem0.take(ws + op->Some_0.1))
+                 })""", ('C18', 'C02', 'C13')),
+                 ('a_word_is_a_keyword_or_one_identifier', """r is Ok && r->Ok_0 is Some ==> ({
+                    let t = r->Ok_0->Some_0;
+                    let rem0 = old(self).scanner.remaining();
+                    let ws = ws_run(rem0) as int;
+                    let c0 = rem0[ws];
+                    let c1 = if ws + 1 < rem0.len() { Some(rem0[ws + 1]) } else { None::<char> };
+                    let rest = rem0.skip(ws + 1);
+                    let word = seq![c0] + rest.take(ident_run(rest) as int);
+                    is_ident_start(c0) && !((c0 == 'b' || c0 == 'f' || c0 == 'r') && is_quote(c1)) ==>
+                        final(self).scanner.remaining() == rest.skip(ident_run(rest) as int)
+                        && (match keyword_of(word) { Some(kw) => t.token == kw, None => t.token is Ident && t.token->Ident_0@ == word })
+                 })""", ('C13', 'C02'))],
+        body_begin='let ghost rem0 = self.scanner.remaining(); let ghost loc0 = self.scanner.loc(); let ghost mut k: int = 0;',
+        loops={0: dict(invariant=[
+            ('scanner_well_formed', 'self.scanner.wf()'),
+            ('whitespace_skipped_so_far', """0 <= k <= rem0.len() && (forall|i: int| 0 <= i < k ==> is_ws(#[trigger] rem0[i]))
+                && curr_char == (if k < rem0.len() { Some(rem0[k as int]) } else { None::<char> })
+                && self.scanner.remaining() == (if k < rem0.len() { rem0.skip(k + 1) } else { rem0.skip(rem0.len() as int) })
+                && sl(token_start) == adv_n(loc0, rem0.take(k as int))
+                && self.scanner.loc() == (if k < rem0.len() { adv_n(loc0, rem0.take(k + 1)) } else { adv_n(loc0, rem0.take(k as int)) })""", ('C18',))],
+            ensures=[('first_character_after_the_whitespace', 'curr_char is None || !is_ws(curr_char->Some_0)', ('C18',))])},
+        arm_end={"Some(' ') | Some('\\t') | Some('\\n')": """proof {
+    if k + 1 < rem0.len() { assert(rem0.skip(k + 1)[0] == rem0[k + 1]); assert(rem0.skip(k + 1).skip(1) =~= rem0.skip(k + 2)); lemma_adv_take(loc0, rem0, k + 1); }
+    k = k + 1;
+}"""},
+        before={('stmt', "'outer: loop", 0): """proof {
+    assert(rem0.take(0) =~= Seq::<char>::empty());
+    if rem0.len() > 0 { lemma_adv_take(loc0, rem0, 0); } else { assert(rem0.skip(0) =~= rem0); }
+}""",
+                'let res = if let Some(input_char) = curr_char': """proof {
+    lemma_ws_run(rem0, k as nat);
+    if k + 1 < rem0.len() { lemma_adv_take(loc0, rem0, k + 1); assert(rem0.skip(k + 1).skip(1) =~= rem0.skip(k + 2)); assert(rem0.skip(k + 1)[0] == rem0[k + 1]); }
+    assert(k == ws_run(rem0));
+    reveal_strlit("true"); reveal_strlit("false"); reveal_strlit("null"); reveal_strlit("in"); reveal_strlit("match"); reveal_strlit("case");
+    reveal_strlit("b"); reveal_strlit("c"); reveal_strlit("f"); reveal_strlit("i"); reveal_strlit("m"); reveal_strlit("n"); reveal_strlit("r"); reveal_strlit("t");
+    reveal_with_fuel(kw_lookup, 3);
+    assert("true"@ =~= seq!['t', 'r', 'u', 'e'] && "false"@ =~= seq!['f', 'a', 'l', 's', 'e'] && "null"@ =~= seq!['n', 'u', 'l', 'l'] && "in"@ =~= seq!['i', 'n']
+        && "match"@ =~= seq!['m', 'a', 't', 'c', 'h'] && "case"@ =~= seq!['c', 'a', 's', 'e']);
+    assert("b"@ =~= seq!['b'] && "c"@ =~= seq!['c'] && "f"@ =~= seq!['f'] && "i"@ =~= seq!['i'] && "m"@ =~= seq!['m'] && "n"@ =~= seq!['n'] && "r"@ =~= seq!['r'] && "t"@ =~= seq!['t']);
+}"""},
+        rewrites=[('self.location()', 'self.scanner.location()', 'R8: the Tokenizer trait method resolved to its one-line implementation for StringTokenizer (location() = self.scanner.location())'),
+                  ('res.map(|o| o.map(|t| TokenWithLoc::new(t, SourceRange::new(token_start, self.location()))))', 's_with_span(res, token_start, self.scanner.location())', 'R2m: Result::map / Option::map with nested closures -> trampoline (assumed: wraps an Ok(Some(token)) with the span, passes everything else through)'),
+                  ('input_char.encode_utf8(&mut tmp)', 's_encode_utf8(input_char, &mut tmp)', 'R2m: char::encode_utf8 -> trampoline (assumed: the one-character string)'),
+                  ('&input_char.to_string()', '&s_char_to_string(input_char)', 'R2m: char::to_string -> trampoline')],
+        props=('C18', 'C02', 'C13', 'C01'))
+
+
+def keywords_contract():
+    return A(
+        ret='r', attrs=['#[verifier::exec_allows_no_decreases_clause]'], requires=[WF],
+        ensures=[WF_OUT, ERR_LOC,
+                 ('the_longest_run_of_identifier_characters_is_one_word_keyword_or_identifier', """r is Ok && r->Ok_0 is Some && ({
+                    let rem0 = old(self).scanner.remaining();
+                    let n = ident_run(rem0);
+                    let word = starting@ + rem0.take(n as int);
+                    &&& final(self).scanner.remaining() == rem0.skip(n as int)
+                    &&& final(self).scanner.loc() == adv_n(old(self).scanner.loc(), rem0.take(n as int))
+                    &&& (match kw_lookup(options@, word) { Some(t) => r->Ok_0->Some_0 == t, None => r->Ok_0->Some_0 is Ident && r->Ok_0->Some_0->Ident_0@ == word })
+                 })""", ('C13', 'C02', 'C18'))],
+        body_begin='let ghost rem0 = self.scanner.remaining(); let ghost loc0 = self.scanner.loc(); let ghost mut k: int = 0;',
+        loops={0: dict(invariant=[
+            ('scanner_well_formed', 'self.scanner.wf()'),
+            ('identifier_characters_so_far', """0 <= k <= rem0.len() && (forall|i: int| 0 <= i < k ==> is_ident_char(#[trigger] rem0[i])) && working@ =~= starting@ + rem0.take(k)
+                && self.scanner.remaining() == rem0.skip(k) && self.scanner.loc() == adv_n(loc0, rem0.take(k))""", ('C13',))],
+            ensures=[('stops_at_the_first_other_character', 'k == rem0.len() || !is_ident_char(rem0[k])', ('C13',))])},
+        arm_end={"'a'..='z' | 'A'..='Z' | '0'..='9' | '_'": """proof {
+    assert(rem0.skip(k)[0] == rem0[k]);
+    assert(rem0.skip(k).skip(1) =~= rem0.skip(k + 1));
+    assert(rem0.take(k + 1) =~= rem0.take(k).push(rem0[k]));
+    lemma_adv_take(loc0, rem0, k);
+    k = k + 1;
+}"""},
+        before={"'outer: loop": 'proof { assert(rem0.take(0) =~= Seq::<char>::empty()); assert(rem0.skip(0) =~= rem0); }',
+                'if let Some(ident) =': 'proof { lemma_ident_run(rem0, k as nat); }'},
+        rewrites=[('options.iter().find(|x| x.0 == working)', 's_find_keyword(options, &working)', 'R2m: slice::iter().find(closure) -> trampoline (assumed: the first entry whose name equals the word)')],
+        props=('C13', 'C02', 'C18', 'C01'))
 
 
 def number_contract():
@@ -252,6 +467,9 @@ def build():
             rewrites=[('u32::from_str_radix(&code_str, 16)', 's_u32_from_str_radix(&code_str, 16)', 'R2m: std from_str_radix -> trampoline with the assumed std behaviour')],
             props=('C13', 'C18', 'C01')),
         'parse_string_literal': string_literal(),
+        'collect_next_token': collect_contract(),
+        'parse_keywords_or_ident': keywords_contract(),
+        'parse_bytes_literal': bytes_literal(),
         'parse_number_or_token': number_contract(),
     }, others='stub', skip=('with_input',))
     U.raw(C.FOOTER, 'footer')
